@@ -437,4 +437,143 @@ theorem baseBuild_meta_N {ig extra : List (List String)} {l : Kvs} {e : J} {L : 
   rw [baseBuild_meta hig hx h, bodyLabels_of_N hl, bodyAnn_of_N hl]
   exact N_filter_nonempty L A (fun a => filtK (keepA a) a) rfl
 
+/-! ### results are objects -/
+
+theorem remove_isObj : ∀ (f : List String) (d d' : J), d.isObj = true → remove d f = .ok d' → d'.isObj = true
+  | [], d, d', _, h => by cases d <;> simp [remove] at h
+  | [k], d, d', _, h => by
+    cases d with
+    | obj l => simp [remove] at h; subst h; rfl
+    | _ => simp [remove] at h
+  | k :: k2 :: ks, d, d', _, h => by
+    cases d with
+    | obj l =>
+      simp only [remove] at h
+      cases hl : lookup k l with
+      | none => rw [hl] at h; simp at h; subst h; rfl
+      | some child =>
+        rw [hl] at h
+        simp only [] at h
+        cases hc : remove child (k2 :: ks) with
+        | error e => rw [hc] at h; simp [bind, Except.bind] at h
+        | ok c' =>
+          rw [hc] at h
+          simp only [bind, Except.bind] at h
+          split at h <;> (simp [pure, Except.pure] at h; subst h; rfl)
+    | _ => simp [remove] at h
+
+theorem ignoreFields_isObj : ∀ (ig : List (List String)) (e e' : J), e.isObj = true →
+    ignoreFields e ig = .ok e' → e'.isObj = true
+  | [], e, e', ho, h => by simp [ignoreFields] at h; subst h; exact ho
+  | f :: fs, e, e', ho, h => by
+    simp only [ignoreFields] at h
+    cases hr : remove e f with
+    | ok e1 => rw [hr] at h; exact ignoreFields_isObj fs e1 e' (remove_isObj f e e1 ho hr) h
+    | error er =>
+      rw [hr] at h
+      cases er <;> simp only [] at h <;> first | exact ignoreFields_isObj fs e e' ho h | cases h
+
+theorem removeEmptyStanzas_isObj (l : Kvs) : (removeEmptyStanzas (.obj l)).isObj = true := by
+  obtain ⟨l', h, _⟩ := removeEmptyStanzas_meta l
+  rw [h]; rfl
+
+theorem baseBuild_isObj {ig extra : List (List String)} {b e : J} (h : baseBuild ig extra b = .ok e) :
+    e.isObj = true := by
+  obtain ⟨kvs, rfl⟩ := baseBuild_obj h
+  rw [baseBuild_eq] at h
+  cases h1 : cherrypick (.obj kvs) (.obj (erase4 kvs)) [ML, MA] with
+  | error er => rw [h1] at h; cases h
+  | ok e1 =>
+    rw [h1] at h
+    simp only [tailBuild] at h
+    split at h
+    · cases h
+    · have o1 := (cherrypick_get? (.obj kvs) "zzz" _ _ _ h1 rfl (by
+        simp [get?, erase4]
+        rw [lookup_erase_other _ (by decide), lookup_erase_other _ (by decide), lookup_erase_other _ (by decide),
+          lookup_erase_other _ (by decide)])).2
+      cases e1 with
+      | obj l1 =>
+        cases h3 : cherrypick (.obj kvs) (stage2 (.obj l1)) extra with
+        | error er => rw [h3] at h; cases h
+        | ok e3 =>
+          rw [h3] at h
+          simp only [] at h
+          have o3 := (cherrypick_get? (.obj kvs) "zzz" extra _ _ h3 (by unfold stage2; exact filterAnnotations_isObj _ _) (by
+            unfold stage2
+            rw [filterAnnotations_get? _ _ (by decide)]
+            have := (cherrypick_get? (.obj kvs) "zzz" _ _ _ h1 rfl (by
+              simp [get?, erase4]
+              rw [lookup_erase_other _ (by decide), lookup_erase_other _ (by decide), lookup_erase_other _ (by decide),
+                lookup_erase_other _ (by decide)])).1
+            exact this)).2
+          cases e3 with
+          | obj l3 =>
+            split at h
+            · cases h
+            · exact ignoreFields_isObj ig _ e (removeEmptyStanzas_isObj l3) h
+          | _ => simp [isObj] at o3
+      | _ => simp [isObj] at o1
+
+/-! ### the chain: leaf storages, Multi, progress clear -/
+
+/-- a body whose `build` yields the normal form for labels `L` and annotations `A`. -/
+def Src (l : Kvs) (L : Option J) (A : Option Kvs) : Prop :=
+  ∀ (ig extra : List (List String)) (e : J), AvoidKey "metadata" ig → ExtraAvoids "metadata" extra →
+    baseBuild ig extra (.obj l) = .ok e → e.get? "metadata" = N L (A.map (fun a => filtK (keepA a) a))
+
+theorem src_body (kvs : Kvs) : Src kvs (bodyLabels kvs) (bodyAnn kvs) :=
+  fun _ _ _ hig hx h => baseBuild_meta hig hx h
+
+theorem src_N {l : Kvs} {L : Option J} {A : Option Kvs} (h : lookup "metadata" l = N L A) : Src l L A :=
+  fun _ _ _ hig hx hb => baseBuild_meta_N hig hx h hb
+
+def notIn (ks : List String) (k : String) : Bool := !ks.contains k
+
+/-- the annotations after one leaf storage's `build`. -/
+def leafAnn (ks : List String) (a : Kvs) : Kvs := filtK (notIn ks) (filtK (keepA a) a)
+
+theorem leafBuild_meta {hs : Hashes} {extra : List (List String)} {l : Kvs} {e : J} {L : Option J} {A : Option Kvs}
+    (leaf : DiffBaseLeaf) (hsrc : Src l L A) (hav : AvoidKey "metadata" (leafFields leaf))
+    (hx : ExtraAvoids "metadata" extra) (h : leafBuild hs extra (.obj l) leaf = .ok e) :
+    e.isObj = true ∧
+    (match leaf with
+     | .annotations p key v1 _ => ∃ mk ks, markKey (.obj l) key.toList = .ok mk ∧ makeKeys hs v1 p.toList mk = .ok ks ∧
+          e.get? "metadata" = N L (A.map (leafAnn ks))
+     | .status _ _ => e.get? "metadata" = N L (A.map (fun a => filtK (keepA a) a))) := by
+  cases leaf with
+  | annotations p key v1 ig =>
+    simp only [leafBuild] at h
+    obtain ⟨e1, h1, h2⟩ := bind_ok h
+    obtain ⟨mkk, hmk, h3⟩ := bind_ok h2
+    obtain ⟨ks, hks, h4⟩ := bind_ok h3
+    have g1 := hsrc ig extra e1 hav hx h1
+    have o1 := baseBuild_isObj h1
+    cases e1 with
+    | obj l1 =>
+      cases hm : metaOK (.obj l1) with
+      | false => simp [hm, throw, throwThe, MonadExceptOf.throw, bind, Except.bind] at h4
+      | true =>
+        simp [hm, pure, Except.pure] at h4
+        subst h4
+        refine ⟨?_, mkk, ks, hmk, hks, ?_⟩
+        · unfold removeAnnotations
+          cases hf : filterAnnotations (fun k => !ks.contains k) (.obj l1) with
+          | obj l2 => exact removeEmptyStanzas_isObj l2
+          | _ => have := filterAnnotations_isObj (fun k => !ks.contains k) l1; rw [hf] at this; simp [isObj] at this
+        · unfold removeAnnotations
+          have := filter_clean_meta (fun k => !ks.contains k) (l := l1) (L := L)
+            (A := A.map (fun a => filtK (keepA a) a)) (by simpa [get?] using g1)
+          rw [this]
+          cases A <;> rfl
+    | _ => simp [isObj] at o1
+  | status f ig =>
+    simp only [leafBuild] at h
+    obtain ⟨e1, h1, h2⟩ := bind_ok h
+    have g1 := hsrc ig extra e1 (fun g hg => hav g (List.mem_cons_of_mem _ hg)) hx h1
+    obtain ⟨hd, hhd, hne⟩ := hav f List.mem_cons_self
+    refine ⟨remove_isObj f e1 e (baseBuild_isObj h1) (liftD_ok h2), ?_⟩
+    simp only []
+    rw [remove_get? f e1 e hd "metadata" hhd hne (liftD_ok h2), g1]
+
 end Kopf.C04
